@@ -15,4 +15,8 @@ void begin();                     // start recording (clears the table)
 std::vector<Block> end();         // stop recording; returns blocks allocated since begin() that are still live
 size_t live();                    // number of recorded blocks still live (valid between begin and end)
 uint64_t hash_blocks(const std::vector<Block>& b);
+// every block handed out by malloc / aligned_alloc / posix_memalign from now on is filled with `byte` (0..255) first; -1 = leave
+// it as the allocator returns it.  Two runs of the same calls under different fills must give the same results: the library
+// may not read heap memory it has not written (C11 "no result depends on uninitialised memory", C15 "regardless of history").
+void set_fill(int byte);
 }  // namespace at
